@@ -27,7 +27,7 @@ ASSUMPTIONS = [
 ]
 CFG = gen.cfg_with(probe_w=0, max_funcs=5, raise_w=0, nonjson_p=0.0, nowrite_p=0.0, catch_p=0.95, root_catch_p=0.97,
                    query_kinds=['read_text', 'read_binary', 'declare_read', 'read_binary', 'declare_read', 'exists', 'get_size'],
-                   chain_p=0.4, tree_queries=3, caches=['cache.gz'])
+                   chain_p=0.4, tree_queries=3, around_p=0.3, caches=['cache.gz'])
 ADOPT = {'C05.unjustified': 'C13.needless_reexecution', 'C05.unchanged_rebuild': 'C13.needless_reexecution',
          'C05.rewrite': 'C13.needless_reexecution', 'C01.outcome': 'C13.result', 'C01.tree': 'C13.result'}
 
@@ -76,6 +76,13 @@ def drive(draw, h, cfg):
             step(h, ['symlink', draw(st.sampled_from(spots)), draw(st.sampled_from(files))])
             if h.stats['ext_effective']:
                 h.stats['c13_symlinks'] += 1
+    # a directory below which the program builds outputs is a symbolic link to a directory elsewhere
+    if draw(st.sampled_from(range(5))) == 0:
+        anc = sorted({'/'.join(t.split('/')[:i]) for t in targets for i in range(1, len(t.split('/')))})
+        anc = [a for a in anc if not os.path.lexists(h.sb.ap(a)) and not h.protected(h.sb.ap(a))]
+        if anc:
+            step(h, ['symlinkdir', draw(st.sampled_from(anc))])
+            h.stats['c13_symlinked_output_dirs'] += 1
     step(h, ['build', {}, None])
     h.c13_edits = 0
     for _ in range(draw(st.integers(1, 4))):
